@@ -52,7 +52,9 @@ pub trait JwsVerifier {
 
 impl JwsVerifier for Box<dyn JwsVerifier> {
   fn verify(&self, input: VerificationInput, public_key: &Jwk) -> Result<(), SignatureVerificationError> {
-    <dyn JwsVerifier>::verify(self, input, public_key)
+    // `self` is a `&Box<dyn JwsVerifier>`: handing it over as is would coerce the box itself into the trait object
+    // and call this very function again.
+    <dyn JwsVerifier>::verify(self.as_ref(), input, public_key)
   }
 }
 
